@@ -87,6 +87,29 @@ LOCKS = r'''
         }
         vk_end!();
     }
+    // a mutable or shared borrow requested while the shared lock is held ELSEWHERE must WAIT, not panic: sequentially the
+    // wait shows up as std's futex wait loop (allowed to exhaust the unwinding bound / reach the unmodelled futex
+    // syscall), whereas reaching rrtk's own `expect` panic means the borrow gave up instead of waiting
+    #[kani::proof]
+    #[kani::unwind(3)]
+    fn c17_contended_borrow_waits() {
+        let which = sk(0);
+        if which < 2 {
+            let arc = std::sync::Arc::new(std::sync::Mutex::new(0u32));
+            let r = Reference::from_arc_mutex(arc.clone());
+            let held = arc.lock().unwrap();
+            kani::cover!(true, "vk_end");
+            if which == 0 { let _b = r.borrow_mut(); } else { let _b = r.borrow(); }
+            drop(held);
+        } else {
+            let arc = std::sync::Arc::new(std::sync::RwLock::new(0u32));
+            let r = Reference::from_arc_rw_lock(arc.clone());
+            let held = arc.write().unwrap();
+            kani::cover!(true, "vk_end");
+            if which == 2 { let _b = r.borrow_mut(); } else { let _b = r.borrow(); }
+            drop(held);
+        }
+    }
     #[kani::proof]
     fn c17_guard_held_ptr_locks() {
         let m = std::sync::Mutex::new(kani::any::<u32>());
@@ -179,7 +202,11 @@ def spec(ctx):
                           clause="%s: every sequence of %d clone/drop/write operations over 3 slots; all live clones read the last write" % (v, k)))
     hs += [Harness("c17_guard_held_arc_mutex", "e1", clause="Arc<Mutex>: borrow/borrow_mut hold the shared lock for the life of the borrow"),
            Harness("c17_guard_held_arc_rw_lock", "e1", clause="Arc<RwLock>: borrow_mut holds the write lock, borrow a read lock"),
-           Harness("c17_guard_held_ptr_locks", "e1", clause="PtrMutex / PtrRwLock: same")]
+           Harness("c17_guard_held_ptr_locks", "e1", clause="PtrMutex / PtrRwLock: same"),
+           Harness("c17_contended_borrow_waits", "e1", unwind=3, skeletons=[(0,), (1,), (2,), (3,)],
+                   allow_fail=r"@std::sys::|@std::thread|@core::sync::atomic|futex|@std::sync::poison|foreign function|is not currently supported by Kani",
+                   allow_unwind=r"futex|sys::sync|thread",
+                   clause="borrow / borrow_mut on Arc<Mutex> / Arc<RwLock> while the lock is held elsewhere waits (std's futex loop) instead of panicking")]
     dyn_hs = lambda: [Harness("c17_to_dyn_ptr", "e1", clause="to_dyn! on a Ptr reference aliases the target"),
                       Harness("c17_to_dyn_rc_ref_cell", "e1", clause="to_dyn! on an Rc<RefCell> reference aliases and keeps the target alive"),
                       Harness("c17_to_dyn_ptr_rw_lock", "e1", clause="to_dyn! on a PtrRwLock reference aliases the target")]
